@@ -252,8 +252,11 @@ Definition full_output (le : bytes) (recs : list (rtag * bytes)) : bytes :=
 (* the policy under which the theorems hold: every error is propagated or left to
    bufio's sticky error, the final Flush result is returned *)
 Definition soft (h : handler) : bool := match h with Propagate | Ignore => true | _ => false end.
+(* inside writeLine even `return nil` on a failed WriteString is covered: the caller goes
+   on, every later call fails with the same sticky error, the final Flush returns it *)
+Definition lsoft (h : handler) : bool := match h with Propagate | Ignore | ReturnNil => true | _ => false end.
 Definition policy_ok (p : wpolicy) : bool :=
-  soft (p_wl_line p) && soft (p_wl_le p)
+  lsoft (p_wl_line p) && lsoft (p_wl_le p)
   && (soft (p_wl_flush p) || match p_wl_flush p with Absent => true | _ => false end)
   && match p_api_flush p with Propagate => true | _ => false end
   && soft (p_hdr p) && soft (p_body p) && soft (p_ctl p)
